@@ -340,6 +340,31 @@ def commit (b : Buf) (n : Nat) : BufOut :=
 def truncate (b : Buf) (n : Nat) : Buf := { b with used := wrap32 (n + 1) }
 def clear (b : Buf) : Buf := { b with used := 0 }
 
+/-- the growth operations callers apply to a buffer -/
+inductive BufOp
+  | prep (n : Nat)        -- buffer_string_prepare_append(b, n)
+  | commit (m : Nat)      -- buffer_commit(b, m)
+  | extend (n : Nat)      -- buffer_extend(b, n) / buffer_append_string_len(b, s, n)
+  | copy (n : Nat)        -- buffer_string_prepare_copy(b, n) / buffer_copy_string_len
+  | trunc (n : Nat)       -- buffer_truncate(b, n)
+  | clear                 -- buffer_clear(b)
+deriving Repr, DecidableEq
+
+def bufStep (b : Buf) : BufOp → BufOut
+  | .prep n => prepareAppend b n
+  | .commit m => commit b m
+  | .extend n => extend b n
+  | .copy n => prepareCopy b n
+  | .trunc n => .ok (truncate b n)
+  | .clear => .ok (clear b)
+
+def bufRun : Buf → List BufOp → BufOut
+  | b, [] => .ok b
+  | b, op :: rest =>
+    match bufStep b op with
+    | .abort => .abort
+    | .ok b' => bufRun b' rest
+
 /-! ### ck_realloc_u32() -/
 
 /-- bytes passed to realloc(); `none` = ck_assert fails (elt_sz ≠ 0 is the callers' sizeof) -/
@@ -520,6 +545,123 @@ def gwRunStep (maxField : Nat) (r : GwRun) (m : Bytes) : GwRun :=
 
 def gwRun (maxField : Nat) (reads : List Bytes) : GwRun := reads.foldl (gwRunStep maxField) {}
 
+/-! ### h1_chunked(): whole calls, resumed across reads -/
+
+/-- request-body decoder state kept between calls: `r->x.h1.te_chunked`, `reqbody_queue.bytes_in`,
+    the unconsumed bytes of the read queue (viewed contiguously: h1_cq_compact() joins the chunks
+    before every decision that looks at more than one), `reqbody_length >= 0`, keep-alive -/
+structure H1St where
+  te : Int := 0
+  bytesIn : Int := 0
+  q : Bytes := []
+  done : Bool := false
+  ka : Bool := true
+deriving Repr, DecidableEq
+
+inductive H1Iter
+  | ub (what : String)
+  | err (status : Nat)
+  | stop (st : H1St)              -- break / return HANDLER_GO_ON
+  | cont (st : H1St)              -- next round of the do-while loop
+deriving Repr, DecidableEq
+
+/-- strchr(s, '\n') / strstr(s, "\r\n\r\n") on a NUL-terminated buffer: nothing behind a NUL is seen -/
+def cstr (q : Bytes) : Bytes := q.takeWhile (· ≠ 0)
+
+def h1Iter (msKB maxField : Nat) (st : H1St) : H1Iter :=
+  if st.te = 0 then
+    match lfIdx (cstr st.q) 0 with
+    | none => if st.q.length ≥ Extracted.ckPartialMaxH1 then .err 400 else .stop st
+    | some i =>
+      let hsz := i + 1
+      let line := st.q.take hsz
+      let rest := st.q.drop hsz
+      match ckHex Extracted.ckGuardH1 line 0 0 with
+      | .ub w => .ub w
+      | .tooLarge => .err 400
+      | .ok te k after =>
+        if !ck1LineOk line k after then .err 400
+        else if hsz ≥ Extracted.ckLineMaxH1 then .err 400
+        else if te = 0 then
+          -- last chunk: the line is consumed only together with the trailer section
+          if rest.getD 0 0 = cr && rest.getD 1 0 = lf then .stop { st with q := rest.drop 2, done := true }
+          else
+            match findCrlfCrlf (cstr (st.q.drop (hsz - 2))) 0 with
+            | some j => .stop { st with q := st.q.drop (hsz - 2 + j + 4), done := true }
+            | none =>
+              if st.q.length < maxField then .stop st
+              else .stop { st with q := [], done := true, ka := false }
+        else
+          let maxReq : Int := (msKB : Int) * 1024
+          if !inI64 maxReq then .ub "max_request_size<<10"
+          else if msKB ≠ 0 && (maxReq < te || maxReq - te < st.bytesIn) then .err 413
+          else
+            let te2 := te + 2
+            if !inI64 te2 then .ub "te+2" else .cont { st with te := te2, q := rest }
+  else
+    let len : Int := st.q.length
+    -- if (te_chunked > 2) { if (len > te_chunked-2) len = te_chunked-2; … steal len … te_chunked -= len }
+    let t2 := st.te - 2
+    if !inI64 t2 then .ub "te-2"
+    else
+      let n : Int := if st.te > 2 then (if len > t2 then t2 else len) else 0
+      let room := Extracted.ckInMemMax - st.bytesIn
+      if !inI64 room then .ub "64k-bytes_in"
+      else
+        let in' := st.bytesIn + n
+        if !inI64 in' then .ub "bytes_in+len"
+        else
+          let te' := st.te - n
+          if !inI64 te' then .ub "te-len"
+          else
+            let q' := st.q.drop n.toNat
+            let st' := { st with te := te', bytesIn := in', q := q' }
+            if (q'.length : Int) < te' then .stop st'
+            else if te' = 2 then
+              if q'.getD 0 0 ≠ cr then .err 400
+              else if q'.getD 1 0 ≠ lf then .err 400
+              else .cont { st' with te := 0, q := q'.drop 2 }
+            else .cont st'
+
+inductive H1Out
+  | ub (what : String)
+  | err (status : Nat)
+  | ok (st : H1St)
+deriving Repr, DecidableEq
+
+def h1Loop (msKB maxField : Nat) : Nat → H1St → H1Out
+  | 0, _ => .ub "fuel"
+  | fuel + 1, st =>
+    match h1Iter msKB maxField st with
+    | .ub w => .ub w
+    | .err e => .err e
+    | .stop st' => .ok st'
+    | .cont st' => if st'.q.isEmpty then .ok st' else h1Loop msKB maxField fuel st'
+
+/-- one call of h1_chunked() after `m` was appended to the read queue -/
+def h1Call (msKB maxField : Nat) (st : H1St) (m : Bytes) : H1Out :=
+  let st1 := { st with q := st.q ++ m }
+  if st1.q.isEmpty then .ok st1 else h1Loop msKB maxField (2 * st1.q.length + 2) st1
+
+structure H1Run where
+  st : H1St := {}
+  n : Nat := 0
+  fail : Option String := none      -- some "err <status>" | some "ub:…"
+  maxrest : Nat := 0
+deriving Repr, DecidableEq
+
+def h1RunStep (msKB maxField : Nat) (r : H1Run) (m : Bytes) : H1Run :=
+  if r.fail.isSome || r.st.done then r
+  else
+    match h1Call msKB maxField r.st m with
+    | .ub w => { r with fail := some ("ub:" ++ w), n := r.n + 1 }
+    | .err e => { r with fail := some ("err " ++ toString e), n := r.n + 1 }
+    | .ok st' =>
+      { r with st := st', n := r.n + 1,
+               maxrest := if st'.done then r.maxrest else Nat.max r.maxrest st'.q.length }
+
+def h1Run (msKB maxField : Nat) (reads : List Bytes) : H1Run := reads.foldl (h1RunStep msKB maxField) {}
+
 /-! ### waiting for more header bytes: h1_recv_headers(), http_response_parse_headers() -/
 
 inductive HeadDecision
@@ -690,6 +832,7 @@ def h2Cont (fsize : Nat) (buf : Bytes) : ContOut :=
           if m < 9 then .ub "m-9 wraps"
           else
             let acc := setU24 (m - 9) ++ acc.drop 3
+            let acc := acc.set 4 (acc.getD 4 0 ||| flagEndHeaders)      -- s[4] |= H2_FLAG_END_HEADERS
             let tail := if n < buf.length then buf.drop n else []
             .merged m (acc ++ tail) (loops ≥ 32)
 
